@@ -48,25 +48,25 @@ Proof. exact @stream_accept_iff. Qed.
 
 (* TLS 1.3: an accepted application_data record is the sealing, under the nonce of the receiver's
    next sequence number and the header as additional data, of content ++ [type] ++ zero padding.
-   (covers every inner type, incl. an encrypted change_cipher_spec that only a peer with the keys can make) *)
+   (the inner type is neither 0 nor change_cipher_spec: RFC 8446 section 5, a protected CCS is rejected) *)
 Theorem accept_image_tls13 : forall (CS : Type) (P : Prim CS) (R : CS -> CS -> Prop) (c : Cfg)
     (s r r' : St CS) (hver : Z * Z) (body : list Z) (ty : Z) (data : list Z),
   mode_ok P R MTls13 c -> aead_tight P -> sync R s r ->
   unprotect c P r (23, hver, body) = ROk (r', (ty, data)) ->
-  hver = (3, 3) /\ ty <> 0 /\ zlen data <= c_recv_limit c /\
+  hver = (3, 3) /\ (ty <> 0 /\ ty <> 20) /\ zlen data <= c_recv_limit c /\
   exists k nonce, 0 <= k /\ zlen data + 1 + k <= c_recv_limit c + 1 /\
     get_nonce c (be_bytes 8 (st_seq r)) = ROk nonce /\
     body = pr_seal P nonce (data ++ [ty] ++ zeros k) (aad13 23 (3, 3) (zlen body)) /\
     sync R {| st_cs := st_cs s; st_seq := st_seq s + 1 |} r' /\ st_seq r' = st_seq r + 1.
 Proof. exact @tls13_accept. Qed.
 
-(* TLS 1.3, application_data / 3.3 header, inner type other than change_cipher_spec: full iff, for every
-   amount of zero padding within the receive limit *)
+(* TLS 1.3, application_data / 3.3 header: full iff, for every amount of zero padding within the receive
+   limit; the inner type is any byte except 0 and change_cipher_spec *)
 Theorem accept_iff_image_tls13 : forall (CS : Type) (P : Prim CS) (R : CS -> CS -> Prop) (c : Cfg)
     (s r : St CS) (body : list Z) (ty : Z) (data : list Z),
-  mode_ok P R MTls13 c -> aead_tight P -> sync R s r -> ty <> 20 -> zlen body < 65536 ->
+  mode_ok P R MTls13 c -> aead_tight P -> sync R s r -> zlen body < 65536 ->
   ((exists r', unprotect c P r (23, (3, 3), body) = ROk (r', (ty, data))) <->
-   (ty <> 0 /\ zlen data <= c_recv_limit c /\ st_seq s < 18446744073709551616 /\
+   ((ty <> 0 /\ ty <> 20) /\ zlen data <= c_recv_limit c /\ st_seq s < 18446744073709551616 /\
     exists k s', 0 <= k /\ zlen data + 1 + k <= c_recv_limit c + 1 /\
       protect_with c P s (ty, data) {| ch_pad := []; ch_ivb := []; ch_nonce := []; ch_zeros := k |} (3, 3)
         = ROk (s', (23, (3, 3), body)))).
@@ -160,9 +160,9 @@ Theorem tls13_outer_checks : forall (CS : Type) (R : CS -> CS -> Prop) (c : Cfg)
   mode_ok P R MTls13 c -> zlen body <= c_recv_limit c + 256 ->
   (hty = 20 -> unprotect c P r (hty, hver, body) =
                if zlen body >? c_recv_limit c then RErr EOverflow else ROk (r, (20, body))) /\
-  (hty = 21 -> zlen body < 3 -> zlen body <= c_recv_limit c -> st_seq r = 0 ->
+  (hty = 21 -> c_plain_alert c = true -> zlen body < 3 -> zlen body <= c_recv_limit c -> st_seq r = 0 ->
    unprotect c P r (hty, hver, body) = ROk (r, (21, body))) /\
-  (hty <> 20 -> hty <> 23 -> ~ (hty = 21 /\ zlen body < 3 /\ st_seq r = 0) ->
+  (hty <> 20 -> hty <> 23 -> ~ (c_plain_alert c = true /\ hty = 21 /\ zlen body < 3 /\ st_seq r = 0) ->
    0 <= st_seq r < 18446744073709551616 -> c_tag c <= zlen body ->
    unprotect c P r (hty, hver, body) = RErr EUnexpected) /\
   (hty = 23 -> hver <> (3, 3) -> 0 <= st_seq r < 18446744073709551616 -> c_tag c <= zlen body ->
